@@ -97,7 +97,7 @@ type blk struct {
 	kids     []*kid
 	closed   bool
 	saved    bool
-	l0, l1   int // log range of this round's save stream
+	l0, l1   int    // log range of this round's save stream
 	mids     []*blk // roots of this round that were saved while the round was still going on
 	root     util.Key
 	content  map[string]string
